@@ -115,3 +115,197 @@ def pilot_wait(case, rp):
     if 'default-is-final' in case['obligation'] or later not in FINAL + requested:
         later = 'DONE'
     return _wait_scenario(p, lambda: p.wait(state, None), later, requested)
+
+
+# ------------------------------------------------------------------------------
+# C06 / C13
+#
+class AttrDict(dict):
+    def __getattr__(self, k):
+        try: return self[k]
+        except KeyError: raise AttributeError(k)
+    def __setattr__(self, k, v): self[k] = v
+
+
+TV = None
+
+
+def tv(rp, s):
+    return rp.states._task_state_values[s]
+
+
+def mk_task(rp, rec):
+    from radical.pilot.task import Task
+    t = object.__new__(Task)
+    t._log = Stub()
+    for k, v in rec.items():
+        if k == '_descr':
+            t._descr = AttrDict(v)
+        else:
+            setattr(t, k, v)
+    t._set_info = lambda *a, **k: None
+    return t
+
+
+def task_snapshot(t):
+    return {k: (dict(v) if isinstance(v, dict) else v)
+            for k, v in t.__dict__.items() if k.startswith('_')
+            and k not in ('_log', '_set_info')}
+
+
+def clean_dict(d):
+    """model dict -> python dict without the keys the model left None
+    (optional keys are modelled as None when absent)"""
+    out = dict()
+    for k, v in d.items():
+        if v is None and k not in ('uid', 'state'):
+            continue
+        if isinstance(v, dict):
+            v = clean_dict(v)
+        out[k] = v
+    return out
+
+
+def check_task_update(rp, old, new, td, reconnect, raised):
+    """the clauses of C06 on one Task._update call, evaluated natively"""
+    F = ['DONE', 'FAILED']
+    probs = []
+    if old['_state'] in F and new != old:
+        probs.append('task in %s was modified' % old['_state'])
+    if old['_state'] == 'CANCELED' and not (
+       new['_state'] == 'CANCELED' or
+       (new['_state'] == 'DONE' and td['state'] == 'DONE')):
+        probs.append('CANCELED task moved to %s' % new['_state'])
+    if new['_state'] != old['_state'] and not reconnect and not (
+       new['_state'] in ('FAILED', 'CANCELED') or
+       tv(rp, new['_state']) == tv(rp, old['_state']) + 1):
+        probs.append('state moved %s -> %s (not a single step)'
+                     % (old['_state'], new['_state']))
+    if raised and new != old:
+        probs.append('modified although it raised %s' % raised)
+    return probs
+
+
+@builder('task.py:Task._update')
+def task_update(case, rp):
+    m = case['model']
+    t = mk_task(rp, m['self'])
+    td = clean_dict(m['task_dict'])
+    old = task_snapshot(t)
+    raised = None
+    try:
+        t._update(td, reconnect=m.get('reconnect', False))
+    except Exception as e:
+        raised = type(e).__name__
+    new = task_snapshot(t)
+    probs = check_task_update(rp, old, new, td, m.get('reconnect', False), raised)
+    return dict(confirmed=bool(probs), detail='; '.join(probs) or
+                'clauses hold natively (raised=%s)' % raised,
+                input=dict(state=old['_state'], update=td.get('state')))
+
+
+def _valid_tstate(rp, s, dflt='NEW'):
+    return s if s in rp.states._task_state_values and s is not None else dflt
+
+
+def mk_tmgr(rp, tasks):
+    """TaskManager with the given {uid: task-record} and a callback recorder"""
+    import threading as mt
+    from radical.pilot.task_manager import TaskManager
+    tm = object.__new__(TaskManager)
+    tm._log = Stub()
+    tm._prof = Stub()
+    tm._tasks_lock = mt.RLock()
+    tm._tasks = dict()
+    tm._task_info = dict()
+    tm.cb_log = list()
+    for uid, rec in tasks.items():
+        rec = dict(rec)
+        rec['_uid'] = uid
+        rec['_state'] = _valid_tstate(rp, rec.get('_state'))
+        rec.setdefault('_descr', {'mode': 'task.executable', 'metadata': None})
+        tm._tasks[uid] = mk_task(rp, rec)
+        tm._task_info[uid] = dict()
+    tm._task_cb = lambda task, state: tm.cb_log.append((task.uid, state))
+    tm._closed = False
+    tm._terminate = _Event()
+    tm.adv_log = list()
+    tm.advance = lambda things, *a, **k: tm.adv_log.append(
+                     [t['uid'] for t in (things if isinstance(things, list)
+                                         else [things])])
+    return tm
+
+
+def check_update_tasks(rp, old_states, tm, batch, raised):
+    probs = []
+    if raised:
+        probs.append('batch raised %s' % raised)
+    named = set(d['uid'] for d in batch)
+    for uid, t in tm._tasks.items():
+        o, n = old_states[uid], t.state
+        if uid not in named and n != o:
+            probs.append('%s not in the batch but moved %s -> %s' % (uid, o, n))
+        if o in FINAL and n != o:
+            probs.append('%s was final (%s) and changed to %s' % (uid, o, n))
+        if tv(rp, n) < tv(rp, o):
+            probs.append('%s moved backward %s -> %s' % (uid, o, n))
+    last = dict()
+    for uid, s in tm.cb_log:
+        prev = last.get(uid, old_states.get(uid))
+        if not tv(rp, s) > tv(rp, prev):
+            probs.append('callback for %s announces %s after %s' % (uid, s, prev))
+        elif s not in ('FAILED', 'CANCELED') and tv(rp, s) != tv(rp, prev) + 1:
+            probs.append('callback for %s skips from %s to %s' % (uid, prev, s))
+        last[uid] = s
+    for uid, s in last.items():
+        if tm._tasks[uid].state != s:
+            probs.append('%s: last callback %s but state is %s'
+                         % (uid, s, tm._tasks[uid].state))
+    return probs
+
+
+def run_update_tasks(rp, tasks, batch):
+    tm = mk_tmgr(rp, tasks)
+    old = {u: t.state for u, t in tm._tasks.items()}
+    raised = None
+    try:
+        tm._update_tasks(copy.deepcopy(batch))
+    except Exception as e:
+        raised = '%s: %s' % (type(e).__name__, e)
+    return check_update_tasks(rp, old, tm, batch, raised), old
+
+
+@builder('task_manager.py:TaskManager._update_tasks')
+def update_tasks(case, rp):
+    m = case.get('model') or {}
+    tasks = m.get('self._tasks') or {}
+    batch = [clean_dict(d) for d in (m.get('task_dicts') or [])
+             if isinstance(d, dict)]
+    for d in batch:
+        d['state'] = _valid_tstate(rp, d.get('state'))
+    if tasks and batch:
+        probs, old = run_update_tasks(rp, tasks, batch)
+        if probs:
+            return dict(confirmed=True, detail='; '.join(probs[:3]),
+                        input=dict(states=old, batch=[(d['uid'], d['state'])
+                                                      for d in batch]))
+    # bounded native search around the model: two tasks, every pair of
+    # (current, notified) states for the first, a plain next step for the second
+    states = [s for s in rp.states._task_state_values if s is not None]
+    n = 0
+    for cur in states:
+        for tgt in states:
+            n += 1
+            batch = [{'uid': 'a', 'state': tgt},
+                     {'uid': 'b', 'state': 'TMGR_SCHEDULING_PENDING'}]
+            probs, old = run_update_tasks(rp, {'a': {'_state': cur},
+                                               'b': {'_state': 'NEW'},
+                                               'c': {'_state': cur}}, batch)
+            if probs:
+                return dict(confirmed=True, detail='; '.join(probs[:3]),
+                            input=dict(states=old, batch=[(d['uid'], d['state'])
+                                                          for d in batch]),
+                            found_by='bounded native search (%d cases tried)' % n)
+    return dict(confirmed=False, detail='model did not reproduce; bounded '
+                'native search over %d (current, notified) pairs found no '
+                'failing input' % n)
